@@ -316,7 +316,10 @@ Add(st, l) ==
                 ELSE LET v == VerOfVN(CHOOSE v \in VNs(l) : TRUE) IN
                      Commit(st, Flush([o.st EXCEPT !.ver = v, !.queue = <<>>], st.queue))
                 : o \in AddHeader(st, l)}
-  ELSE IF st.ver # "none" THEN AddDecided(st, l)
+  ELSE IF st.ver # "none" THEN
+    AddDecided(st, l)
+      \* an orphan placeholder (outside the claim, DESIGN 3.1) may still carry the identifier
+      \cup (IF st.orph /\ Named(l) /\ l.rt # "S" THEN {Fail(st, "NotUniqueError")} ELSE {})
   ELSE IF l.rt = "#" THEN {Ok([st EXCEPT !.lines = Append(@, l)])}
   ELSE IF l.rt \in Gfa1Only THEN {Ok([st EXCEPT !.queue = Append(@, l), !.guess = "gfa1"])}
   ELSE IF IsCustom(l) THEN {Ok([st EXCEPT !.queue = Append(@, l)])}
